@@ -65,7 +65,7 @@ CHECKS = {
  "C11": dict(
     technique="property-based testing / stateful: exhaustive + proptest operation histories on TrapSet over the real SignalSystem implementation against a per-signal reference merge; proptest scripts with a trapped signal delivered by self-kill at every position and asynchronously by the harness scheduler",
     text="Exploration: every history of <=5 operations (quick: strided, thorough: complete) over a 35-operation alphabet x interactive/non-interactive x 3 sets of initially ignored signals, plus random histories of <=14 operations; after each operation the disposition installed in the simulated process for each of 9 signals must equal max(internal, user/inherited), set_action must fail exactly in the documented cases, take_caught_signal must yield each trapped delivery exactly once. Scripts: 40k (quick) / 2M (thorough) with `kill -s USR1 $$` at every position or SIGUSR1 raised by the scheduler before a generated step: exactly one trap execution, at a command boundary, seeing and preserving $?. Bounded.",
-    note="Trusted: the reference merge in harness/src/props/c11.rs, the scheduler's asynchronous raise (only when the process currently catches the signal). A third family (chain) covers a signal delivered while another action runs, two signals pending at one boundary, an action that returns from the enclosing function, and delivery by the last command. Delivery during the wait built-in is not judged; terminal/job-control stoppers are exercised at API level only.",
+    note="Trusted: the reference merge in harness/src/props/c11.rs, the scheduler's asynchronous raise (only when the process currently catches the signal). Deliveries are also made to an interactive shell that reads its script through a pipe in generated chunks, so that the `read` built-in can be blocked when the signal arrives. A third family (chain) covers a signal delivered while another action runs, two signals pending at one boundary, an action that returns from the enclosing function, and delivery by the last command. Delivery during the wait built-in is not judged; terminal/job-control stoppers are exercised at API level only.",
     design="4/C11"),
  "C12": dict(
     technique="property-based testing / stateful: exhaustive enumeration of valid job-event histories (automaton unranking) + proptest random histories against a shadow model and the documented invariants, checked through the public JobList API after every step",
@@ -94,7 +94,7 @@ CHECKS = {
     design="4/C18"),
  "C19": dict(
     technique="property-based testing / differential: proptest scripts from a 129-statement catalogue run by the same generic shell main on RealSystem (child process in a scratch directory) and on VirtualSystem; stdout, exit status, stderr emptiness and final file tree diffed",
-    text="Exploration: every catalogue statement alone and in two fixed contexts, plus 8k (quick) / 400k (thorough) random scripts of 3-10 statements over redirections, descriptor juggling, cd, globbing, pipelines, substitutions, here-documents, read, subshells, umask, traps with self-signals, background jobs and wait, transfers of 66-150 kB through real pipes, a trapped signal arriving between two forks of one command, and error cases; both systems must produce identical stdout, status (incl. death by signal), stderr emptiness and final tree (names, types, contents, permission bits). A real-OS run in which every process of the script is asleep without using CPU for 10 s is reported as a deadlock (state predicate, not a time limit). Bounded; the real side runs under its natural schedule only.",
+    text="Exploration: every catalogue statement alone and in two fixed contexts, plus 8k (quick) / 400k (thorough) random scripts of 3-10 statements over redirections, descriptor juggling, cd, globbing, pipelines, substitutions, here-documents, read, subshells, umask, traps with self-signals, background jobs and wait, transfers of 66-150 kB through real pipes, a trapped signal arriving between two forks of one command, signals whose default action is to be ignored, the descriptor limit (last valid descriptor, failed pipe with one free slot), PATH search past directories, wait with a stopped sibling, and error cases; both systems must produce identical stdout, status (incl. death by signal), stderr emptiness and final tree (names, types, contents, permission bits). A real-OS run in which every process of the script is asleep without using CPU for 10 s is reported as a deadlock (state predicate, not a time limit). Bounded; the real side runs under its natural schedule only.",
     note="Trusted: the replicated 12 lines of yash-cli glue (sys.rs), the probe built-ins, tempfile scratch directories. Two simulator limitations are open known findings (symbolic links not followed by open / in mid-path; open(O_CREAT) creating missing directories); permission-denied behaviour is not exercised (root).",
     design="4/C19"),
  "C20": dict(
